@@ -43,6 +43,7 @@ CONTRACTS = {
         params={"key": "str"},
         returns="list[str]",
         result_is="key_accidentals(key)",
+        ensures=[("a-list-of-its-own-every-time", "is_fresh(result)")],
         raises={"NoteFormatError": "not is_key(key)"},
         split=[{"bind": {"key": k}} for k in KEYS30] + [{"assume": "not is_key(key)"}],
         properties=["C04"], battery="key_strings",
